@@ -147,6 +147,40 @@ func runC12(c *Ctx) {
 									}
 								}
 							}
+						case *ssa.Call:
+							// membership through a predicate method of the pool: p.isTaken(name) == (p.used[name] != 0)
+							takenWhen, f, ok := membershipPredicate(x, fn)
+							if !ok || len(x.Common().Args) < 2 || x.Common().Args[1] != v || x.Referrers() == nil {
+								continue
+							}
+							usedField[f] = true
+							for _, rr := range *x.Referrers() {
+								var iff *ssa.If
+								neg := false
+								switch y := rr.(type) {
+								case *ssa.If:
+									iff = y
+								case *ssa.UnOp:
+									if y.Op == token.NOT && y.Referrers() != nil {
+										for _, r4 := range *y.Referrers() {
+											if i2, ok := r4.(*ssa.If); ok {
+												iff, neg = i2, true
+											}
+										}
+									}
+								}
+								if iff == nil {
+									continue
+								}
+								// Succs[0] is taken when the tested value is true
+								unusedEdge, other := iff.Block().Succs[1], iff.Block().Succs[0]
+								if neg != !takenWhen {
+									unusedEdge, other = other, unusedEdge
+								}
+								if (unusedEdge == r.Block() || unusedEdge.Dominates(r.Block())) && !reachableNoLoop(other, r.Block(), iff.Block()) {
+									consulted = fmt.Sprintf("used-set membership predicate %s in block %d, unused edge -> block %d", x.Common().StaticCallee().Name(), b.Index, unusedEdge.Index)
+								}
+							}
 						case *ssa.MapUpdate:
 							f, ok := isUsedSet(fn, x.Map)
 							if !ok || x.Key != v {
@@ -280,21 +314,30 @@ func runC12(c *Ctx) {
 	if nvp := resolveRole(c, genPkg, "NewVarPool"); nvp != nil {
 		c.seen(fnName(nvp))
 		seeded := map[string]bool{}
-		for _, b := range nvp.Blocks {
-			for _, in := range b.Instrs {
-				mu, ok := in.(*ssa.MapUpdate)
-				if !ok {
-					continue
-				}
-				if n, ok := constInt(mu.Value); !ok || n == 0 {
-					continue
-				}
-				s := newSym(L, map[string]bool{})
-				for _, t := range s.eval(mu.Key) {
-					c.Notes = append(c.Notes, "NewVarPool seeds key "+t)
-					for name := range lists {
-						if strings.Contains(t, "global:"+genPkg+"."+name) {
-							seeded[name] = true
+		// the constructor itself or a helper only it uses (p.reserve(list[:])): the helper's parameter is read as the
+		// argument of each call site
+		fam := family(L, nvp)
+		for _, g := range fam {
+			for _, b := range g.Blocks {
+				for _, in := range b.Instrs {
+					mu, ok := in.(*ssa.MapUpdate)
+					if !ok {
+						continue
+					}
+					if n, ok := constInt(mu.Value); !ok || n == 0 {
+						continue
+					}
+					s := newSym(L, map[string]bool{})
+					terms := s.eval(mu.Key)
+					if g != nvp {
+						terms = liftParams(L, fam, g, terms)
+					}
+					for _, t := range terms {
+						c.Notes = append(c.Notes, "NewVarPool seeds key "+t)
+						for name := range lists {
+							if strings.Contains(t, "global:"+genPkg+"."+name) {
+								seeded[name] = true
+							}
 						}
 					}
 				}
@@ -329,6 +372,58 @@ func runC12(c *Ctx) {
 				call, _ := st.Val.(*ssa.Call)
 				okA := call != nil && call.Common().StaticCallee() != nil && allocating[call.Common().StaticCallee()]
 				c.check(okA, "C12.4", fnName(fn)+":"+k, L.pos(st.Pos()), "the identifier cached in "+k+" is the direct result of an allocating VarPool method", "stored value is "+describe(st.Val))
+			}
+		}
+	}
+	// *slot = allocate(t): the same store written once in a helper that receives the field's address and the allocator
+	// method as arguments; each call site of the helper is one store
+	for _, fn := range pkgFuncs(L, genPkg) {
+		for _, b := range fn.Blocks {
+			for _, in := range b.Instrs {
+				st, ok := in.(*ssa.Store)
+				if !ok {
+					continue
+				}
+				slot, ok := st.Addr.(*ssa.Parameter)
+				if !ok || slot.Parent() != fn {
+					continue
+				}
+				slotIdx, allocIdx := paramIndex(fn, slot), -1
+				if call, ok := st.Val.(*ssa.Call); ok {
+					if ap, ok := call.Common().Value.(*ssa.Parameter); ok && ap.Parent() == fn {
+						allocIdx = paramIndex(fn, ap)
+					}
+				}
+				for _, g := range pkgFuncs(L, genPkg) {
+					for _, cs := range callsIn(g) {
+						if cal := cs.common.StaticCallee(); cal == nil || originOf(cal) != fn || slotIdx >= len(cs.common.Args) {
+							continue
+						}
+						fa, ok := cs.common.Args[slotIdx].(*ssa.FieldAddr)
+						if !ok {
+							continue
+						}
+						k := fieldKey(fa)
+						if k != "internal/kessoku.InjectorParam.name" && k != "internal/kessoku.InjectorParam.channelName" {
+							continue
+						}
+						nStores++
+						okA, what := false, "the stored value is not the result of a function handed in by the caller"
+						if allocIdx >= 0 && allocIdx < len(cs.common.Args) {
+							what = "the allocator argument is " + describe(cs.common.Args[allocIdx])
+							if mc, ok := cs.common.Args[allocIdx].(*ssa.MakeClosure); ok {
+								if bf, ok := mc.Fn.(*ssa.Function); ok && strings.HasPrefix(bf.Synthetic, "bound method wrapper") {
+									if m, ok := bf.Object().(*types.Func); ok {
+										if mf := L.Prog.FuncValue(m); mf != nil && allocating[mf] {
+											okA = true
+										}
+									}
+								}
+							}
+						}
+						c.check(okA, "C12.4", fnName(g)+":"+k, L.pos(cs.instr.Pos()), "the identifier cached in "+k+" is the direct result of an allocating VarPool method", what)
+					}
+				}
 			}
 		}
 	}
@@ -859,4 +954,63 @@ func c12PreviousOutputFunc(c *Ctx, call *ssa.Call, pred *ssa.Function) (bool, st
 		return true, "files skipped are exactly those named outputFileName(<a syntax file of the same package>) (set built by " + b.Name() + ")"
 	}
 	return false, "cannot identify the set the skip predicate consults: " + describe(arg)
+}
+
+// membershipPredicate: call is `pool.pred(name)` on caller's own pool where pred is a method with the single return
+// `pool.used[name] != 0` (takenWhen = true), `== 0` (takenWhen = false) or the comma-ok flag of that lookup (true).
+// Returns the used-set field key.
+func membershipPredicate(call *ssa.Call, caller *ssa.Function) (takenWhen bool, field string, ok bool) {
+	cal := call.Common().StaticCallee()
+	if cal == nil || len(cal.Params) != 2 || len(call.Common().Args) != 2 || len(caller.Params) == 0 || call.Common().Args[0] != ssa.Value(caller.Params[0]) {
+		return false, "", false
+	}
+	rs := returnsOf(cal)
+	if len(rs) != 1 || len(rs[0].Results) != 1 || len(cal.Blocks) != 1 {
+		return false, "", false
+	}
+	usedOf := func(lk *ssa.Lookup) (string, bool) {
+		u, isU := lk.X.(*ssa.UnOp)
+		if !isU || u.Op != token.MUL || lk.Index != ssa.Value(cal.Params[1]) {
+			return "", false
+		}
+		fa, isF := u.X.(*ssa.FieldAddr)
+		if !isF || fa.X != ssa.Value(cal.Params[0]) {
+			return "", false
+		}
+		return fieldKey(fa), true
+	}
+	// no side effects in the predicate
+	for _, in := range cal.Blocks[0].Instrs {
+		switch in.(type) {
+		case *ssa.Store, *ssa.MapUpdate, *ssa.Call, *ssa.Go, *ssa.Defer, *ssa.Send:
+			return false, "", false
+		}
+	}
+	switch x := rs[0].Results[0].(type) {
+	case *ssa.BinOp:
+		lk, isL := x.X.(*ssa.Lookup)
+		if !isL || lk.CommaOk {
+			return false, "", false
+		}
+		if z, isC := constInt(x.Y); !isC || z != 0 {
+			return false, "", false
+		}
+		f, okU := usedOf(lk)
+		if !okU {
+			return false, "", false
+		}
+		switch x.Op {
+		case token.NEQ, token.GTR:
+			return true, f, true
+		case token.EQL:
+			return false, f, true
+		}
+	case *ssa.Extract:
+		if lk, isL := x.Tuple.(*ssa.Lookup); isL && lk.CommaOk && x.Index == 1 {
+			if f, okU := usedOf(lk); okU {
+				return true, f, true
+			}
+		}
+	}
+	return false, "", false
 }
